@@ -68,18 +68,6 @@ SemBinary(op, A, B) ==
    ELSE IF ~BCompat(A.shape, B.shape) THEN MustError
    ELSE Weaken(A.dt \notin CoreTypes(op), MustValue(<<ElementwiseValue(op, A, B)>>))
 
-\* KF-C03-divzero (defect model): the float division kernel stores +Inf whenever the divisor is +-0,
-\* whatever the dividend (IEEE: sign-correct infinity, NaN for 0/0 and NaN/0)
-DivZeroModel(A, B) ==
-   LET s == BShape(A.shape, B.shape)
-   IN Mk(A.dt, s, LAMBDA idx : LET a == At(A, BIndex(idx, A.shape)) b == At(B, BIndex(idx, B.shape))
-                               IN IF FMag(b) = "z" THEN PInf ELSE FDiv(a, b))
-KnownBinary(op, A, B) ==
-   IF op = "Div" /\ A.dt = B.dt /\ A.dt \in FloatTypes /\ BCompat(A.shape, B.shape)
-      /\ \E i \in 1..Len(B.data) : FMag(B.data[i]) = "z"
-   THEN <<Known("KF-C03-divzero", "value", <<LowerT(DivZeroModel(A, B))>>)>>
-   ELSE <<>>
-
 \* every element pair that meets under broadcasting has a determined result
 AllDefined(op, A, B) ==
    \/ ~BCompat(A.shape, B.shape)
